@@ -42,6 +42,9 @@ var keptCache keptIndex
 var keptAll *keptFile
 
 func keptIndexPath() string {
+	if alt := os.Getenv("VERIF_KEPT_IN"); alt != "" {
+		return alt
+	}
 	exe, err := os.Executable()
 	if err == nil {
 		p := filepath.Join(filepath.Dir(filepath.Dir(exe)), "checker", "mustpass_index.json")
@@ -90,7 +93,7 @@ func recvTypeNameRef(fi *FuncInfo) string {
 }
 
 var keptCallPkgs = map[string]bool{
-	"sync": true, "sync/atomic": true, "os": true, "io": true, "net": true, "container/list": true, "encoding/json": true,
+	"sync": true, "sync/atomic": true, "os": true, "io": true, "container/list": true, "encoding/json": true,
 	"bufio": true, "crypto/tls": true, "context": true,
 }
 
@@ -106,6 +109,9 @@ func keptEffects(p *Prog, info *types.Info, n ast.Node) []string {
 		out = append(out, s)
 	}
 	ownerOf := func(fv *types.Var) string {
+		if fv.Pkg() == nil || !strings.HasPrefix(fv.Pkg().Path(), modPath) {
+			return "" // a value of a library type being filled in (net.TCPAddr, tls.Config): not maddy's state
+		}
 		if o := fieldOwner(p, fv); o != nil {
 			if types.Implements(o, errorIface()) || types.Implements(types.NewPointer(o), errorIface()) {
 				return "" // building an error value is not a state change
@@ -273,7 +279,23 @@ func keptSuccess(r *RuleCtx) func(Pt) bool {
 	sig, _ := r.FI.Obj.Type().(*types.Signature)
 	hasErr := sig != nil && sig.Results().Len() > 0 && isErrorType(sig.Results().At(sig.Results().Len()-1).Type())
 	if hasErr {
-		return r.IsSuccessReturn
+		// `return f(…)` hands on whatever f says – possibly nil: for the inventory it counts as a successful exit (a
+		// function whose only returns are tail calls would otherwise have no successful path at all and every effect in
+		// it would be must-pass vacuously)
+		return func(pt Pt) bool {
+			if r.IsSuccessReturn(pt) {
+				return true
+			}
+			k, ret := r.F.Exit(pt)
+			if k != ExitReturn || ret == nil || len(ret.Results) == 0 {
+				return false
+			}
+			last := ast.Unparen(ret.Results[len(ret.Results)-1])
+			if _, isCall := last.(*ast.CallExpr); isCall && !nonNilErrExpr(r.Info, last) {
+				return true
+			}
+			return false
+		}
 	}
 	return r.F.IsNormalExit
 }
